@@ -8,11 +8,7 @@ import GoPipeline.Lemmas.Parse03
 namespace GoPipeline.Parse
 open GoPipeline GoPipeline.Pipe GoPipeline.Marshal GoPipeline.Unm
 
-def keysOf (m : Entries) : List String := m.map (·.1)
-
-/-- The keys a command step models (everything else is "any other key"). -/
-def commandKeys : List String :=
-  ["commands", "command", "key", "id", "identifier", "label", "name", "plugins", "env", "signature", "matrix", "cache"]
+-- `keysOf` and `commandKeys` (the keys a command step models) are defined in `Lemmas/Parse03.lean`.
 
 /-- A bare step list becomes `steps` (and nothing else). -/
 theorem C03_bare_list_becomes_steps (xs : List Val) (p : Pipeline) (ws : List Warn) (j : Val)
@@ -60,7 +56,9 @@ theorem C03_contents_steps_preserved (m : Entries) (hm : (keysOf m).Nodup) (hne 
 /-- Scalar-step shorthands and unknown steps are emitted verbatim. -/
 theorem C03_scalar_and_unknown_verbatim (s : String) (v : Val) (hs : s ≠ "") :
     mStep (.wait s none) = .ok (.str s) ∧ mStep (.input s none) = .ok (.str s) ∧ mStep (.unknown v) = .ok v := by
-  simp [mStep, hs]
+  -- `simp [mStep]` cannot be used: Lean fails to generate the equation lemmas of `mStep`; the
+  -- per-constructor equations are proved by `rfl` in `Lemmas/Parse03.lean`.
+  simp [mStep_wait, mStep_input, mStep_unknown, hs]
 
 /-- Plugins (list of strings, list of single-entry objects, or one mapping) become an ordered list of
     single-entry objects keyed by canonical source, configs `ToMapRecursive`d with empty ⇒ null. -/
